@@ -577,6 +577,28 @@ def fixed_specs(prof: Profile) -> List[Tuple[str, list]]:
         ("unused-variable-nested", q("forall", U, "u", "start", q("exists", T, "x", "u", Ln("u", 3)))),
         ("unused-variable-negated", ["not", q("exists", U, "u", "start", q("exists", T, "x", "u", Ln("u", 3)))]),
     ]
+    # renaming must not capture: a later sibling quantifier re-uses the name `x`; one to three quantifier levels below
+    # it a variable already carries the name a renamer would pick next (`x_0`, or `x_1` when `x_0` is taken as well);
+    # the body relates the two variables, so identifying them changes the verdict
+    def chain(depth: int, inner_name: str, kind: str, outer: str):
+        body = ["smt", f"(< (str.len {inner_name}) (str.len {outer}))", [inner_name, outer]]
+        prev = outer
+        levels = []
+        for lv in range(depth - 1):
+            levels.append((f"t{lv}", prev))
+            prev = f"t{lv}"
+        f = q(kind, T, inner_name, prev, body)
+        for name, inn in reversed(levels):
+            f = q("exists", U, name, inn, f)
+        return f
+    for depth in (1, 2, 3):
+        for kind in ("exists", "forall"):
+            out.append((f"renaming-capture-{kind}-depth{depth}",
+                        ["and", q("exists", U, "x", "start", Ln("x", 0)), q("exists", U, "x", "start", chain(depth, "x_0", kind, "x"))]))
+    out.append(("renaming-capture-second-fresh-name",
+                ["and", q("exists", U, "x", "start", q("exists", T, "x_0", "x", Ln("x_0", 0))),
+                 q("exists", U, "x", "start", chain(2, "x_1", "exists", "x")),
+                 q("forall", U, "x", "start", chain(3, "x_1", "exists", "x"))]))
     # match expression on the first alternative with a nonterminal
     for p in prof.nts:
         if not prof.lits[p] or p == "<start>":
